@@ -174,7 +174,7 @@ impl Property for C15 {
         }
     }
     fn rule(&self) -> &'static str {
-        "(A, one third of the cases) generated sets of 1..5 source files (unformatted, formatted, failing to parse, comment-only) in a directory layout with 0..3 local rustfmt.toml files (sibling directories and a directory nested below another one that has its own configuration); the real binary runs (a) on every file alone (stdout and files mode) as the reference, (b) on every order of the files on one command line (all permutations up to 24), (c) twice with the same command, (d) with the source on standard input from the file's directory, (e) from another working directory with absolute paths and with a perturbed environment (TERM, LANG, RUST_BACKTRACE, NO_COLOR, extra variables); oracle: per-file text and per-file files-mode bytes equal the single-file results, the exit status is the maximum of the single-file statuses, repeated runs are byte-identical; (B, two thirds) 2..5 inputs formatted one after the other in ONE API Session in every order, some under Session::override_config with a local configuration: text and report entries of every input equal those of a session of its own and the session's summary flags after each step are the OR of the single-session flags; non-trivial = the set mixes a failing and an unformatted file, or has two different local configurations; distinct by case content"
+        "(A, one third of the cases) generated sets of 1..5 source files (unformatted, formatted, failing to parse, comment-only, a root with three out-of-line modules) in a directory layout with 0..3 local rustfmt.toml files (sibling directories and a directory nested below another one that has its own configuration); the real binary runs (a) on every file alone (stdout and files mode) as the reference, (b) on every order of the files on one command line (all permutations up to 24), (c) twice with the same command, (b') with --emit json for all files at once against the single-file json reports, (d) with the source on standard input from the file's directory, (e) from another working directory with absolute paths and with a perturbed environment (TERM, LANG, RUST_BACKTRACE, NO_COLOR, extra variables); oracle: per-file text and per-file files-mode bytes equal the single-file results, the exit status is the maximum of the single-file statuses, repeated runs are byte-identical (including the emission order of the files of one module tree), the multi-file json report is the union of the single-file reports; (B, two thirds) 2..5 inputs formatted one after the other in ONE API Session in every order, some under Session::override_config with a local configuration: text and report entries of every input equal those of a session of its own and the session's summary flags after each step are the OR of the single-session flags; non-trivial = the set mixes a failing and an unformatted file, or has two different local configurations; distinct by case content"
     }
     fn generate(&self, c: &mut Choices<'_>, _g: &GenCtx) -> Value {
         if c.chance(2, 3) {
@@ -203,7 +203,15 @@ impl Property for C15 {
         }
         for i in 0..n {
             let d = dirs[c.below(dirs.len())];
-            files.push(F { path: format!("{d}/f{i}.rs"), content: (*c.pick(SOURCES)).to_string() });
+            if c.chance(1, 4) {
+                // a root with three out-of-line modules (emission order within one input)
+                files.push(F { path: format!("{d}/f{i}.rs"), content: "mod kc;\nmod ka;\nmod kb;\nfn  root_of_tree ( ) { }\n".to_string() });
+                for k in ["ka", "kb", "kc"] {
+                    configs.push(F { path: format!("{d}/f{i}/{k}.rs"), content: format!("pub fn  {k}_{i} ( ) {{ let x=1 ; }}\n") });
+                }
+            } else {
+                files.push(F { path: format!("{d}/f{i}.rs"), content: (*c.pick(SOURCES)).to_string() });
+            }
         }
         let _ = used_cfg;
         json!({"files": files, "configs": configs})
@@ -222,6 +230,8 @@ impl Property for C15 {
         let work = base.join("w");
         let abs = |f: &F| work.join(&f.path).to_string_lossy().into_owned();
         let paths: Vec<String> = files.iter().map(abs).collect();
+        // every source file that can head a section of the stdout emitter (roots and their children)
+        let headers: Vec<String> = files.iter().chain(configs.iter().filter(|f| f.path.ends_with(".rs"))).map(abs).collect();
         let mut o = Outcome::pass();
         o.labels.push(format!("files:{}:configs:{}", files.len(), configs.len()));
         let fail = |class: &str, msg: String| -> Outcome {
@@ -241,13 +251,15 @@ impl Property for C15 {
         }
         // ---- (a) single-file references ---------------------------------------------------------
         let mut single_text: Vec<String> = vec![];
+        let mut single_secs: Vec<BTreeMap<String, String>> = vec![];
         let mut single_code: Vec<i32> = vec![];
         let mut single_files: Vec<Vec<u8>> = vec![];
         for (i, f) in files.iter().enumerate() {
             write_all(&work, &all);
             let (code, out, _err) = run!(&work, &["--emit".to_string(), "stdout".to_string(), paths[i].clone()], None);
-            let sec = sections(&out, &paths);
+            let sec = sections(&out, &headers);
             single_text.push(sec.get(&paths[i]).cloned().unwrap_or_default());
+            single_secs.push(sec);
             single_code.push(code.unwrap_or(-1));
             write_all(&work, &all);
             let _ = run!(&work, &[paths[i].clone()], None);
@@ -270,11 +282,14 @@ impl Property for C15 {
             let mut args = vec!["--emit".to_string(), "stdout".to_string()];
             args.extend(p.iter().map(|i| paths[*i].clone()));
             let (code, out, err) = run!(&work, &args, None);
-            let sec = sections(&out, &paths);
+            let sec = sections(&out, &headers);
             for i in 0..files.len() {
-                let got = sec.get(&paths[i]).cloned().unwrap_or_default();
-                if got != single_text[i] {
-                    return fail("multi-file-text-differs", format!("order {p:?}: text of {} differs from its single-file run\n--- single ---\n{}\n--- in this order ---\n{}", files[i].path, single_text[i], got));
+                // the root's section and those of its out-of-line modules
+                for (hp, want) in &single_secs[i] {
+                    let got = sec.get(hp).cloned().unwrap_or_default();
+                    if &got != want {
+                        return fail("multi-file-text-differs", format!("order {p:?}: text of {hp} (input {}) differs from the single-file run\n--- single ---\n{want}\n--- in this order ---\n{got}", files[i].path));
+                    }
                 }
             }
             if code != Some(max_code) {
@@ -303,9 +318,50 @@ impl Property for C15 {
                 return fail("multi-file-exit-status", format!("order {p:?} (files mode): exit status {fcode:?}, single-file statuses {single_code:?}"));
             }
         }
+        // ---- (b') the json report of the multi-file run is the union of the single-file reports --
+        {
+            let strip = |v: &mut Value| {
+                // file names are absolute and identical in all runs (same work directory)
+                let _ = v;
+            };
+            let mut singles: Vec<Value> = vec![];
+            let mut ok = true;
+            for i in 0..files.len() {
+                write_all(&work, &all);
+                let (_c, out, _e) = run!(&work, &["--emit".to_string(), "json".to_string(), paths[i].clone()], None);
+                match serde_json::from_str::<Value>(&out) {
+                    Ok(Value::Array(a)) => singles.extend(a),
+                    _ => ok = false,
+                }
+            }
+            write_all(&work, &all);
+            let mut args = vec!["--emit".to_string(), "json".to_string()];
+            args.extend(paths.iter().cloned());
+            let (_c, out, _e) = run!(&work, &args, None);
+            if ok {
+                match serde_json::from_str::<Value>(&out) {
+                    Ok(Value::Array(mut a)) => {
+                        for v in a.iter_mut() {
+                            strip(v);
+                        }
+                        let key = |v: &Value| v.to_string();
+                        let mut got: Vec<String> = a.iter().map(key).collect();
+                        let mut want: Vec<String> = singles.iter().map(key).collect();
+                        got.sort();
+                        want.sort();
+                        if got != want {
+                            return fail("multi-file-json-differs", format!("the json report of the multi-file run is not the union of the single-file reports\n--- multi ---\n{out}\n--- singles ---\n{}", Value::Array(singles).to_string()));
+                        }
+                        o.labels.push("json-union-checked".into());
+                    }
+                    _ => return fail("multi-file-json-malformed", format!("the json report of the multi-file run does not parse although every single-file report does\n{out}")),
+                }
+            }
+        }
         // ---- (d) standard input from the file's directory ---------------------------------------
         for (i, f) in files.iter().enumerate() {
-            if single_code[i] != 0 {
+            if single_code[i] != 0 || f.content.starts_with("mod kc;") {
+                // (children of a root given on standard input are not visited)
                 continue;
             }
             write_all(&work, &all);
